@@ -27,6 +27,10 @@ type c03Cand struct {
 	ListFacts bool   // the majority fact lists the expel facts
 	Tweak     string // "", "dup-voter", "foreign-voter", "foreign-signer", "borrowed-key"
 	KeyOf     int    // borrowed-key: index of the single node whose key signs every sign fact (each still claims its voter's address)
+	// replayed from another point: votes honestly cast for stage point c03others[Pt-1] presented inside a voteproof for c03Point
+	Pt    int  // 0: every fact is a fact of c03Point; k>0: the other point is c03others[k-1]
+	From  uint // voters whose sign fact is the one they signed for the other point (same X/Y choice, same expel listing)
+	MajAt bool // the declared majority fact is the fact of the other point
 }
 
 func (c c03Cand) String() string {
@@ -35,11 +39,30 @@ func (c c03Cand) String() string {
 		ss[i] = fmt.Sprintf("%b", c.Signers[i])
 	}
 
-	return fmt.Sprintf("n=%d %s maj=%c votes=%0*b other=%0*b expelled=%0*b signers=[%s] listed=%v tweak=%q keyof=%d",
-		c.N, c.Stage, "XY"[c.Maj], c.N, c.VoteMaj, c.N, c.VoteOther, c.N, c.Expelled, strings.Join(ss, ","), c.ListFacts, c.Tweak, c.KeyOf)
+	replay := ""
+	if c.Pt != 0 {
+		replay = fmt.Sprintf(" replayed-from=%s voters=%0*b majority-of-other-point=%v", c03others[c.Pt-1].Name, c.N, c.From, c.MajAt)
+	}
+
+	return fmt.Sprintf("n=%d %s maj=%c votes=%0*b other=%0*b expelled=%0*b signers=[%s] listed=%v tweak=%q keyof=%d%s",
+		c.N, c.Stage, "XY"[c.Maj], c.N, c.VoteMaj, c.N, c.VoteOther, c.N, c.Expelled, strings.Join(ss, ","), c.ListFacts, c.Tweak, c.KeyOf, replay)
 }
 
 var c03Point = base.RawPoint(33, 1)
+
+// The neighbouring stage points whose honestly signed votes an adversary (or a confused peer) can re-pack into a voteproof for c03Point.
+var c03others = []struct {
+	Name      string
+	Kind      string // which coordinate differs (signature suffix)
+	Point     base.Point
+	FlipStage bool
+}{
+	{"round-1", "round", base.RawPoint(33, 0), false},
+	{"round+1", "round", base.RawPoint(33, 2), false},
+	{"height-1", "height", base.RawPoint(32, 1), false},
+	{"height+1", "height", base.RawPoint(34, 1), false},
+	{"other-stage", "stage", base.RawPoint(33, 1), true},
+}
 
 func c03nodes(mask uint, n int) []base.LocalNode {
 	var ls []base.LocalNode
@@ -52,23 +75,30 @@ func c03nodes(mask uint, n int) []base.LocalNode {
 	return ls
 }
 
-func c03facts(c c03Cand, expelfacts []util.Hash) (maj, other base.BallotFact) {
-	mk := func(which int, withExpels bool) base.BallotFact {
-		var efs []util.Hash
-		if withExpels {
-			efs = expelfacts
+// c03factAt is the ballot fact "which" (0: X, 1: Y) of stage point pt (0: c03Point at stage, k>0: c03others[k-1]).
+func c03factAt(stage base.Stage, pt, which int, efs []util.Hash) base.BallotFact {
+	point, at := c03Point, ""
+
+	if pt != 0 {
+		o := c03others[pt-1]
+		point, at = o.Point, "@"+o.Name
+
+		if o.FlipStage {
+			if stage == base.StageINIT {
+				stage = base.StageACCEPT
+			} else {
+				stage = base.StageINIT
+			}
 		}
-
-		label := "XY"[which : which+1]
-
-		if c.Stage == base.StageINIT {
-			return isaac.NewINITBallotFact(c03Point, gen.H("prev"), gen.H("proposal-"+label), efs)
-		}
-
-		return isaac.NewACCEPTBallotFact(c03Point, gen.H("proposal"), gen.H("newblock-"+label), efs)
 	}
 
-	return mk(c.Maj, c.ListFacts), mk(1-c.Maj, false)
+	label := "XY"[which:which+1] + at
+
+	if stage == base.StageINIT {
+		return isaac.NewINITBallotFact(point, gen.H("prev"+at), gen.H("proposal-"+label), efs)
+	}
+
+	return isaac.NewACCEPTBallotFact(point, gen.H("proposal"+at), gen.H("newblock-"+label), efs)
 }
 
 // c03build assembles the real voteproof described by c.
@@ -92,16 +122,61 @@ func c03build(c c03Cand, th base.Threshold) base.Voteproof {
 		expels = append(expels, gen.Expel(gen.Local(i).Address(), c03Point.Height(), c03Point.Height()+1, signers))
 	}
 
-	maj, other := c03facts(c, gen.ExpelFactHashes(expels))
+	var majefs []util.Hash
+	if c.ListFacts {
+		majefs = gen.ExpelFactHashes(expels)
+	}
+
+	majpt := 0
+	if c.MajAt {
+		majpt = c.Pt
+	}
+
+	// the fact a voter signs: its X/Y choice (the declared majority's side lists the expels exactly as the majority does) at the
+	// point its vote was cast for
+	var facts [2][2]base.BallotFact
+
+	factOf := func(pt, which int) base.BallotFact {
+		slot := 0
+		if pt != 0 {
+			slot = 1
+		}
+
+		if facts[slot][which] == nil {
+			var efs []util.Hash
+			if which == c.Maj {
+				efs = majefs
+			}
+
+			facts[slot][which] = c03factAt(c.Stage, pt, which, efs)
+		}
+
+		return facts[slot][which]
+	}
+
+	voted := func(idx, which int) base.BallotFact {
+		if c.Pt != 0 && c.From&(1<<uint(idx)) != 0 {
+			return factOf(c.Pt, which)
+		}
+
+		return factOf(0, which)
+	}
+
+	maj := factOf(majpt, c.Maj)
 
 	var sfs []base.BallotSignFact
 
 	sign := func(f base.BallotFact, node base.LocalNode) base.BallotSignFact {
+		isinit := false
+		if _, ok := f.(base.INITBallotFact); ok {
+			isinit = true
+		}
+
 		if c.Tweak == "borrowed-key" && !node.Address().Equal(gen.Local(c.KeyOf).Address()) {
 			// a sign fact that names `node` but is signed with another member's key (valid signature of that key)
 			key := gen.Local(c.KeyOf)
 
-			if c.Stage == base.StageINIT {
+			if isinit {
 				sf := isaac.NewINITBallotSignFact(f.(base.INITBallotFact)) //nolint:forcetypeassert //...
 				if err := sf.NodeSign(key.Privatekey(), gen.NetworkID, node.Address()); err != nil {
 					panic(err)
@@ -118,19 +193,23 @@ func c03build(c c03Cand, th base.Threshold) base.Voteproof {
 			return sf
 		}
 
-		if c.Stage == base.StageINIT {
+		if isinit {
 			return gen.SignINIT(f.(base.INITBallotFact), node) //nolint:forcetypeassert //...
 		}
 
 		return gen.SignACCEPT(f.(base.ACCEPTBallotFact), node) //nolint:forcetypeassert //...
 	}
 
-	for _, node := range c03nodes(c.VoteMaj, c.N) {
-		sfs = append(sfs, sign(maj, node))
+	for i := 0; i <= c.N; i++ { // index n = foreign node (not in the suffrage)
+		if c.VoteMaj&(1<<uint(i)) != 0 {
+			sfs = append(sfs, sign(voted(i, c.Maj), gen.Local(i)))
+		}
 	}
 
-	for _, node := range c03nodes(c.VoteOther, c.N) {
-		sfs = append(sfs, sign(other, node))
+	for i := 0; i <= c.N; i++ {
+		if c.VoteOther&(1<<uint(i)) != 0 {
+			sfs = append(sfs, sign(voted(i, 1-c.Maj), gen.Local(i)))
+		}
 	}
 
 	if c.Tweak == "dup-voter" && len(sfs) > 0 {
@@ -224,12 +303,15 @@ func TestC03(t *testing.T) {
 	r.Rule("one stage point (INIT and ACCEPT), two facts X,Y, suffrage n; candidates = every assignment of nodes to {absent, votes the declared majority, expelled} " +
 		"x canonical expel-signer sets of every size class the validator distinguishes {1,req-1,req,n-k-1,n-k,n-1} (live-first and expelled-first) " +
 		"x {majority fact lists the expel facts or not}, every plain assignment to {absent, votes majority, votes the other fact}, x tweaks {duplicate voter, foreign voter, foreign expel signer, one member signing the other voters' sign facts with its own key}; real signed voteproofs, accepted = vp.IsValid && isaac.IsValidVoteproofWithSuffrage; " +
-		"plus rapid-drawn voteproofs with minority votes and arbitrary signer sets. Every pair (accepted for X, accepted for Y) is judged: equivocators = nodes signing different facts in the two. " +
+		"plus the family 'replayed from another point': the votes the nodes cast for a neighbouring stage point (round-1, round+1, height-1, height+1, other stage) packaged as a voteproof for this point " +
+		"(every assignment node -> {absent, vote for this point, vote for the other point} x majority fact of this or of the other point; with expels signed by all others: whole vote set replayed / one replayed vote); " +
+		"plus rapid-drawn voteproofs with minority votes, arbitrary signer sets and arbitrary replayed voter subsets. Every pair of accepted voteproofs for the point with different majority facts is judged: equivocators = nodes signing two different facts for one and the same stage point in the two. " +
 		"non-trivial = distinct pair of accepted voteproofs with different majorities (the pair reached the predicate)")
 	r.Floor(20)
 	r.Assume("both voteproofs carry the network threshold t (a voteproof's own threshold field is not varied)",
 		"expel operations may carry the signature of any suffrage node (statement)",
-		"f = n - ceil(n*t/100) computed with exact integer arithmetic")
+		"f = n - ceil(n*t/100) computed with exact integer arithmetic",
+		"a node that signs one fact per stage point is honest: its vote for another round/height/stage is not a second vote for this stage point")
 
 	type cfg struct {
 		n   int
@@ -271,7 +353,7 @@ func TestC03(t *testing.T) {
 				continue
 			}
 
-			var acc [2][]c03Cand
+			var acc []c03Cand
 
 			var evaluated int64
 
@@ -279,7 +361,7 @@ func TestC03(t *testing.T) {
 				evaluated++
 
 				if c03accepted(c03build(c, th), suf) {
-					acc[c.Maj] = append(acc[c.Maj], c)
+					acc = append(acc, c)
 				}
 			}
 
@@ -416,9 +498,76 @@ func TestC03(t *testing.T) {
 				}
 			}
 
-			c03pairs(t, r, n, t10, f, req, acc[0], acc[1])
+			// replayed from another point: the votes the nodes honestly cast for a neighbouring stage point (round+-1, height+-1,
+			// other stage), packaged as a voteproof for this point. X<->Y symmetry: the replayed side is always X (Maj=0); the
+			// candidates above supply both majorities of this point as partners.
+			for pt := 1; pt <= len(c03others); pt++ {
+				// plain: node -> {absent, its vote for this point, its vote for the other point}; majority of either point
+				for a := 0; a < total; a++ {
+					var votes, from uint
+
+					x := a
+					for i := 0; i < n; i++ {
+						switch x % 3 {
+						case 1:
+							votes |= 1 << uint(i)
+						case 2:
+							votes |= 1 << uint(i)
+							from |= 1 << uint(i)
+						}
+
+						x /= 3
+					}
+
+					if from == 0 {
+						continue
+					}
+
+					for _, majAt := range []bool{true, false} {
+						try(c03Cand{N: n, Stage: stage, VoteMaj: votes, Pt: pt, From: from, MajAt: majAt})
+					}
+				}
+
+				// with expels: node -> {absent, votes, expelled}, every expel signed by all other nodes, expel facts listed;
+				// the whole vote set replayed, and one replayed vote among votes for this point
+				for a := 0; a < total; a++ {
+					var votes, expelled uint
+
+					x := a
+					for i := 0; i < n; i++ {
+						switch x % 3 {
+						case 1:
+							votes |= 1 << uint(i)
+						case 2:
+							expelled |= 1 << uint(i)
+						}
+
+						x /= 3
+					}
+
+					if votes == 0 || expelled == 0 {
+						continue
+					}
+
+					c := c03Cand{N: n, Stage: stage, VoteMaj: votes, Expelled: expelled, ListFacts: true, Pt: pt}
+
+					for e := 0; e < n; e++ {
+						if expelled&(1<<uint(e)) != 0 {
+							c.Signers = append(c.Signers, (uint(1)<<uint(n)-1)&^(1<<uint(e)))
+						}
+					}
+
+					c.From, c.MajAt = votes, true
+					try(c)
+
+					c.From, c.MajAt = votes&-votes, false
+					try(c)
+				}
+			}
+
+			c03pairs(t, r, n, t10, f, req, acc)
 			r.CaseN(evaluated, 0, fmt.Sprintf("cands:n=%d", n))
-			r.Class(fmt.Sprintf("accepted:n=%d,t=%d,%s", n, t10, stage), int64(len(acc[0])+len(acc[1])))
+			r.Class(fmt.Sprintf("accepted:n=%d,t=%d,%s", n, t10, stage), int64(len(acc)))
 		}
 	}
 
@@ -435,7 +584,7 @@ func TestC03(t *testing.T) {
 		suf := gen.Suffrage(gen.Locals(n))
 		stage := rapid.SampledFrom([]base.Stage{base.StageINIT, base.StageACCEPT}).Draw(rt, "stage")
 
-		var acc [2][]c03Cand
+		var acc []c03Cand
 
 		for maj := 0; maj < 2; maj++ {
 			k := rapid.IntRange(1, 4).Draw(rt, "cands")
@@ -460,64 +609,136 @@ func TestC03(t *testing.T) {
 					}
 				}
 
+				// some or all votes (and possibly the majority) replayed from a neighbouring stage point
+				if c.Pt = rapid.SampledFrom([]int{0, 0, 0, 1, 2, 3, 4, 5}).Draw(rt, "replayed-from"); c.Pt != 0 {
+					c.From = c.VoteMaj | c.VoteOther
+					if !rapid.Bool().Draw(rt, "replay-all") {
+						c.From &= uint(rapid.IntRange(1, 1<<uint(n)-1).Draw(rt, "replayed-voters"))
+					}
+
+					c.MajAt = rapid.Bool().Draw(rt, "majority-of-other-point")
+
+					if c.From == 0 && !c.MajAt {
+						c.Pt = 0
+					}
+				}
+
 				if c.VoteMaj == 0 {
 					continue
 				}
 
 				if c03accepted(c03build(c, th), suf) {
-					acc[maj] = append(acc[maj], c)
+					acc = append(acc, c)
 				}
 			}
 		}
 
-		c03pairs(rt, r, n, t10, f, req, acc[0], acc[1])
-		r.Case(fmt.Sprintf("rapid|%v|%v", acc[0], acc[1]), false, "rapid")
+		c03pairs(rt, r, n, t10, f, req, acc)
+		r.Case(fmt.Sprintf("rapid|%v", acc), false, "rapid")
 	})
 }
 
-// c03pairs judges every pair of accepted voteproofs with different majorities.
-func c03pairs(t ev.TB, r *ev.Rec, n, t10, f, req int, accX, accY []c03Cand) {
-	for _, a := range accX {
-		for _, b := range accY {
-			// a declares X; b declares Y. A node equivocates if it signed different facts in the two voteproofs.
-			// in a: VoteMaj -> X, VoteOther -> Y.   in b: VoteMaj -> Y, VoteOther -> X.
-			all := uint(1)<<uint(n) - 1 // suffrage nodes only: a foreign signer is not a suffrage node
-			// who really signed: with a borrowed key only the key's owner signed anything
-			signed := func(c c03Cand, m uint) uint {
-				if c.Tweak == "borrowed-key" && m != 0 {
-					return 1 << uint(c.KeyOf)
+// c03signedFact says which fact node i signed inside c: ok=false when it signed nothing there. A fact is identified by the point
+// it was signed for (0: c03Point, k: c03others[k-1]), the X/Y choice and, when it lists expel facts, the set of expelled nodes.
+func c03signedFact(c c03Cand, i int) (pt, which int, listed uint, ok bool) {
+	bit := uint(1) << uint(i)
+
+	switch {
+	case c.Tweak == "borrowed-key":
+		// only the key's owner signed anything (every sign fact carries its signature)
+		if i != c.KeyOf || c.VoteMaj == 0 {
+			return 0, 0, 0, false
+		}
+
+		return 0, c.Maj, 0, true
+	case c.VoteMaj&bit != 0:
+		which = c.Maj
+
+		if c.ListFacts {
+			listed = c.Expelled
+		}
+	case c.VoteOther&bit != 0:
+		which = 1 - c.Maj
+	default:
+		return 0, 0, 0, false
+	}
+
+	if c.Pt != 0 && c.From&bit != 0 {
+		pt = c.Pt
+	}
+
+	return pt, which, listed, true
+}
+
+// c03majority identifies the declared majority fact by (point it belongs to, X/Y).
+func c03majority(c c03Cand) int {
+	if c.MajAt {
+		return c.Pt*2 + c.Maj
+	}
+
+	return c.Maj
+}
+
+// c03pairs judges every pair of accepted voteproofs (all are voteproofs for c03Point) with different majorities.
+func c03pairs(t ev.TB, r *ev.Rec, n, t10, f, req int, acc []c03Cand) {
+	groups := make([][]c03Cand, 2*(len(c03others)+1))
+	for _, c := range acc {
+		k := c03majority(c)
+		groups[k] = append(groups[k], c)
+	}
+
+	for ka := range groups {
+		for kb := ka + 1; kb < len(groups); kb++ {
+			for _, a := range groups[ka] {
+				for _, b := range groups[kb] {
+					c03pair(t, r, n, t10, f, req, a, b)
 				}
-
-				return m
 			}
-			eq := ((signed(a, a.VoteMaj) & signed(b, b.VoteMaj)) | (signed(a, a.VoteOther) & signed(b, b.VoteOther))) & all
-			neq := bits.OnesCount(eq)
-
-			fp := "pair|" + a.String() + "|" + b.String()
-			r.Case(fp, true, fmt.Sprintf("pairs:n=%d", n))
-
-			if r.WantSample() && (a.Expelled != 0 || b.Expelled != 0) {
-				r.Sample(map[string]any{"n": n, "threshold": float64(t10) / 10, "f": f, "vp_X": a.String(), "vp_Y": b.String(), "equivocators": neq})
-			}
-
-			if neq > f {
-				continue // more equivocators than the fault bound: outside the statement
-			}
-
-			sig := "conflict-plain"
-			ka, kb := bits.OnesCount(a.Expelled), bits.OnesCount(b.Expelled)
-
-			switch {
-			case a.Tweak != "" || b.Tweak != "":
-				sig = "conflict-" + a.Tweak + b.Tweak
-			case ka > n-req || kb > n-req:
-				sig = "expel-k-gt-n-minus-required"
-			case ka > 0 || kb > 0:
-				sig = "conflict-expel"
-			}
-
-			r.Violation(t, sig, "n=%d t=%.1f f=%d required=%d: two accepted voteproofs for %v carry different majorities with only %d equivocator(s)\n  X: %s\n  Y: %s",
-				n, float64(t10)/10, f, req, c03Point, neq, a.String(), b.String())
 		}
 	}
+}
+
+func c03pair(t ev.TB, r *ev.Rec, n, t10, f, req int, a, b c03Cand) {
+	// A node equivocates if it signed two different facts for one and the same stage point in the two voteproofs (suffrage
+	// nodes only: a foreign signer is not a suffrage node). A vote cast for another stage point is not a second vote for this one.
+	neq := 0
+
+	for i := 0; i < n; i++ {
+		pa, wa, la, oka := c03signedFact(a, i)
+		pb, wb, lb, okb := c03signedFact(b, i)
+
+		if oka && okb && pa == pb && (wa != wb || la != lb) {
+			neq++
+		}
+	}
+
+	fp := "pair|" + a.String() + "|" + b.String()
+	r.Case(fp, true, fmt.Sprintf("pairs:n=%d", n))
+
+	if r.WantSample() && (a.Expelled != 0 || b.Expelled != 0) {
+		r.Sample(map[string]any{"n": n, "threshold": float64(t10) / 10, "f": f, "vp_A": a.String(), "vp_B": b.String(), "equivocators": neq})
+	}
+
+	if neq > f {
+		return // more equivocators than the fault bound: outside the statement
+	}
+
+	sig := "conflict-plain"
+	ka, kb := bits.OnesCount(a.Expelled), bits.OnesCount(b.Expelled)
+
+	switch {
+	case a.Pt != 0:
+		sig = "conflict-replayed-" + c03others[a.Pt-1].Kind
+	case b.Pt != 0:
+		sig = "conflict-replayed-" + c03others[b.Pt-1].Kind
+	case a.Tweak != "" || b.Tweak != "":
+		sig = "conflict-" + a.Tweak + b.Tweak
+	case ka > n-req || kb > n-req:
+		sig = "expel-k-gt-n-minus-required"
+	case ka > 0 || kb > 0:
+		sig = "conflict-expel"
+	}
+
+	r.Violation(t, sig, "n=%d t=%.1f f=%d required=%d: two accepted voteproofs for %v carry different majorities with only %d equivocator(s)\n  A: %s\n  B: %s",
+		n, float64(t10)/10, f, req, c03Point, neq, a.String(), b.String())
 }
